@@ -28,11 +28,11 @@ M = [
  ("M09", "C04", "microscpi/src/response.rs", "        f.write_char(',').await?;\n        self.3.write_response(f).await", "        self.3.write_response(f).await", "4-tuples lose the comma before the last element"),
  ("M10", "C04", "microscpi/src/response.rs", "f.write_str(\"9.91E+37\").await\n        }\n        else if self.is_infinite() {\n            if self.is_sign_negative() {\n                f.write_str(\"-9.9E+37\").await", "f.write_str(\"9.91E+37\").await\n        }\n        else if self.is_infinite() {\n            if self.is_sign_negative() {\n                f.write_str(\"-9.91E+37\").await", "first -infinity sentinel (f32) spelled -9.91E+37"),
  ("M11", "C04", "microscpi/src/interface.rs", "                response.write_char('\\n').await?;\n                response.flush().await?;", "                response.flush().await?;\n                response.write_char('\\n').await?;", "flush before the newline"),
- ("M12", "C05", "microscpi/src/parser.rs", "        Ok((_, &[])) => Err(Error::InvalidCharacter)?,", "        Ok((i, &[])) if i.first() == Some(&b'@') => Ok((i, &[][..])),\n        Ok((_, &[])) => Err(Error::InvalidCharacter)?,", "whitespace() accepts an empty match in front of '@'"),
+ ("M12", "C05", "microscpi/src/parser.rs", "    // Skip optional whitespace\n    let (input, _) = optional(whitespace)(input)?;\n    let (input, _terminator) = optional(tag(b'\\n'))(input)?;\n\n    if _terminator.is_some() {\n        return Ok((input, None));\n    }", "    let original = input;\n    let (input, _) = optional(whitespace)(input)?;\n    let (input, _terminator) = optional(tag(b'\\n'))(input)?;\n\n    if _terminator.is_some() {\n        return Ok((if original.starts_with(b\"\\r\\n\") { original } else { input }, None));\n    }", "an empty message written as CR LF is accepted without being consumed (run loops forever)"),
  ("M13", "C05", "microscpi/src/interface.rs", "if read_offset >= cmd_buf.len() {", "if read_offset > cmd_buf.len() {", "overflow test off by one: read into an empty buffer forever"),
  ("M14", "C06", "microscpi/src/interface.rs", "                    self.handle_error(error);\n                }", "                    self.handle_error(error);\n                    if call.query {\n                        self.handle_error(error);\n                    }\n                }", "execution errors of queries are reported twice"),
- ("M15", "C06", "microscpi/src/interface.rs", "                        input = &input[position + 1..];\n                        header = self.root_node();\n                        continue;", "                        input = &input[position..];\n                        header = self.root_node();\n                        continue;", "resync keeps the terminator of the faulty message (extra empty message is harmless?)"),
- ("M16", "C07", "microscpi/src/interface.rs", "cmd_buf.copy_within(proc_offset..read_end, 0);", "cmd_buf.copy_within(proc_offset..read_offset, 0);", "compaction copies one range too long/short"),
+ ("M15", "C06", "microscpi/src/interface.rs", "                        input = &input[position + 1..];\n                        header = self.root_node();\n                        continue;", "                        input = &input[(position + 2).min(input.len())..];\n                        header = self.root_node();\n                        continue;", "resync after a parse error also swallows the first byte of the next message"),
+ ("M16", "C07", "microscpi/src/interface.rs", "                read_offset -= proc_offset;\n                proc_offset = 0;", "                read_offset -= proc_offset;", "proc_offset is not reset after compaction"),
  ("M17", "C07", "microscpi/src/interface.rs", "            while let Some(position) = cmd_buf[read_offset..read_end]", "            while let Some(position) = cmd_buf[proc_offset.min(read_offset)..read_end]", "scan restarts at proc_offset (position then relative to the wrong base)"),
  ("M18", "C08", "microscpi/src/parser.rs", "let (i2, res) = take_while(|c| c != b'\\'')(i1)?;", "let (i2, res) = take_while(|c| c != b'\\'' && c != b'\\n')(i1)?;", "single-quoted strings end at a newline"),
  ("M19", "C08", "microscpi/src/parser.rs", "let count = usize::from_str_radix(count, 10)?;", "let count = usize::from_str_radix(count, 16)?;", "block length read with radix 16"),
@@ -43,8 +43,8 @@ M = [
  ("M24", "C10", "microscpi/src/interface.rs", "            let count = adapter.read(&mut cmd_buf[read_offset..]).await?;", "            let count = adapter.read(&mut cmd_buf[read_offset..]).await?;\n            if count == 0 && read_offset == 0 && N > 1000 {\n                return Ok(());\n            }", "(control: unreachable early Ok for N > 1000 - must NOT be reported)"),
  ("M25", "C11", "microscpi/src/parser.rs", "matches!(input, 0u8..=9u8 | 11u8..=32u8)", "matches!(input, 0u8..=8u8 | 11u8..=32u8)", "TAB is no longer white space"),
  ("M26", "C11", "microscpi/src/parser.rs", "matches!(input, 0u8..=9u8 | 11u8..=32u8)", "matches!(input, 0u8..=9u8 | 11u8..32u8)", "space (32) is no longer white space"),
- ("M27", "C12", "microscpi/src/parser.rs", "    let (i2, _) = optional(sign)(i1)?;\n    let (i3, _) = digits(i2)?;", "    let (i2, _) = optional(sign)(i1)?;\n    let (i3, _) = optional(digits)(i2)?;", "exponent consumes a dangling E"),
- ("M28", "C12", "microscpi/src/parser.rs", "        None => Ok((&[], input)),\n    }\n}\n\n/// Takes a single byte", "        None if input.len() > 3 => Err(ParseError::Incomplete),\n        None => Ok((&[], input)),\n    }\n}\n\n/// Takes a single byte", "take_while reports Incomplete at the end of longer inputs"),
+ ("M27", "C12", "microscpi/src/parser.rs", "    let (input, terminated) = tag(b'\\n')(input)\n        .map(|(i, _)| (i, true))", "    let (input, terminated) = tag(b'\\n')(input)\n        .map(|(i, _)| (i, !i.is_empty()))", "the terminated flag of an accepted unit depends on whether bytes follow the newline"),
+ ("M28", "C12", "microscpi/src/parser.rs", "        Some(_) => Err(Error::InvalidCharacter)?,\n        None => Err(ParseError::Incomplete),", "        Some(b'@') => Err(ParseError::Incomplete),\n        Some(_) => Err(Error::InvalidCharacter)?,\n        None => Err(ParseError::Incomplete),", "an '@' where a specific byte is expected yields Incomplete instead of an error"),
  ("M29", "C13", "microscpi/src/lib.rs", "mod commands;", "extern crate alloc;\nmod commands;", "(control) extern crate alloc alone, nothing allocates"),
  ("M30", "C13", "microscpi/src/error_queue.rs", "        if self.0.push_back(error).is_err() {", "        if self.0.is_full() { let _b = alloc::boxed::Box::new(error); }\n        if self.0.push_back(error).is_err() {", "queue overflow path allocates (needs M29's extern crate alloc)"),
  ("M31", "C14", "microscpi-macros/src/tree.rs", "                    if !Rc::ptr_eq(existing, &cmd) {\n                        return Err(Error::QueryExists);\n                    }", "                    if !Rc::ptr_eq(existing, &cmd) && path.is_empty() && false {\n                        return Err(Error::QueryExists);\n                    }", "query collisions are never reported (later declaration is shadowed)"),
